@@ -66,6 +66,7 @@ pub fn gen_swarm(rng: &mut Rng, profile: Profile) -> Swarm {
         zero_ibc_ok: rng.chance(3, 10),
         zero_tf_ok: rng.chance(3, 10),
         mon_rev: rng.chance(1, 2),
+        sub_second: rng.chance(1, 2),
     }
 }
 
@@ -508,7 +509,9 @@ pub fn next_op(e: &Engine, rng: &mut Rng) -> Op {
             }
         }
         12 => {
-            if rng.chance(3, 4) {
+            if rng.chance(1, 6) {
+                Op::Admin(AdminOp::ResumeRewardOnly { r: if rng.chance(1, 2) { e.m.rewards / 2 } else { e.m.rewards + rng.range(1, 1000) as u128 } })
+            } else if rng.chance(3, 4) {
                 Op::Admin(AdminOp::ResumeSame)
             } else {
                 let base = pow10(e.sw.scale as u32).max(1000);
